@@ -523,6 +523,20 @@ func c09Gen(rt *rapid.T) c09Case {
 			break
 		}
 	}
+	if rapid.IntRange(0, 11).Draw(rt, "longOutage") == 0 {
+		// a long outage: 40..75 consecutive failures with microsecond waits (the doubling must saturate at max, not overflow)
+		n := rapid.IntRange(40, 75).Draw(rt, "outageLen")
+		c.Attempts = nil
+		for i := 0; i < n; i++ {
+			c.Attempts = append(c.Attempts, c09Attempt{Outcome: "dialErr"})
+		}
+		c.BaseUs = rapid.SampledFrom([]int{1, 2, 1000}).Draw(rt, "outageBaseUs")
+		c.MaxUs = rapid.SampledFrom([]int{300, 1000, 3000}).Draw(rt, "outageMaxUs")
+		if c.MaxUs < c.BaseUs {
+			c.MaxUs = c.BaseUs
+		}
+		return c
+	}
 	switch rapid.IntRange(0, 4).Draw(rt, "stop") {
 	case 0, 1:
 		c.Stop = "disconnect"
